@@ -59,6 +59,33 @@ def prepare(run, it, rng, pi):
         line = histcheck.file_text([{"n": first["n"], "v": val, "t": t}])
         inits.append({"text": t_default + line + line, "tool": False})  # duplicate entry
         inits.append({"text": line, "tool": False})  # hand-written, one line
+    # hand-edited with deprecated names: the entry of one option is spelled through an alias (plain for an int,
+    # inverted for a bool), with a value that is not the default
+    ren_tab, ren_text = {}, ""
+    pick_b = next((v for v in settable if info[v["n"]]["type"] == "bool" and not info[v["n"]]["choice"]), None)
+    pick_n = next((v for v in settable if info[v["n"]]["type"] == "int"), None)
+
+    def without(text, name):
+        out, lines = [], text.split("\n")
+        for k_, ln in enumerate(lines):
+            if ln.startswith("CONFIG_%s=" % name) or ln == "# CONFIG_%s is not set" % name:
+                if out and out[-1].strip() == "# default:":
+                    out.pop()
+                continue
+            out.append(ln)
+        return "\n".join(out)
+
+    if pick_b:
+        ren_tab["OLDINV_" + pick_b["n"]] = {"new": pick_b["n"], "inv": True}
+        ren_text += "CONFIG_OLDINV_%s !CONFIG_%s\n" % (pick_b["n"], pick_b["n"])
+        val = [c for c in pick_b["cands"] if c != ktree.NOVAL][0]
+        inits.append({"text": without(t_default, pick_b["n"]) + ("# CONFIG_OLDINV_%s is not set\n" % pick_b["n"] if val == "y" else "CONFIG_OLDINV_%s=y\n" % pick_b["n"]), "tool": False})
+    if pick_n:
+        ren_tab["OLD_" + pick_n["n"]] = {"new": pick_n["n"], "inv": False}
+        ren_text += "CONFIG_OLD_%s CONFIG_%s\n" % (pick_n["n"], pick_n["n"])
+        val = [c for c in pick_n["cands"] if c != ktree.NOVAL and c.strip() == c and c != ""][:1]
+        if val:
+            inits.append({"text": without(t_default, pick_n["n"]) + "CONFIG_OLD_%s=%s\n" % (pick_n["n"], val[0]), "tool": False})
     for i_ in inits:
         i_["lines"] = spec_lines(storecheck.parse_sdkconfig(i_["text"], info), info)
     # alternate files for 'load'
@@ -98,7 +125,8 @@ def prepare(run, it, rng, pi):
         "files": [spec_lines(storecheck.parse_sdkconfig(f, info), info) for f in files],
         "acts": acts,
         "menus": menus,
-        "renames": {},
+        "renames": ren_tab,
+        "renames_text": ren_text or None,
     }
 
 
@@ -117,12 +145,13 @@ def replay(run, p, f0, hist, idx):
         paths.append(pp)
     tr = {"f0": f0, "h": hist, "err": False, "obs": []}
     try:
-        state, stub = menucheck.start_session(run, p["text"], conf)
+        state, stub = menucheck.start_session(run, p["text"], conf, renames=p.get("renames_text"))
         hand = f0 > 0 and not p["inits"][f0 - 1]["tool"]
-        tr["obs"].append(menucheck.observe(run, state, names, p["info"], lenient=hand))
+        al = {o: (r["new"], r["inv"]) for o, r in p["renames"].items()}
+        tr["obs"].append(menucheck.observe(run, state, names, p["info"], lenient=hand, aliases=al))
         for k in hist:
             menucheck.do_action(run, state, stub, p["prog"], p["acts"][k - 1], p["files_text"], paths)
-            tr["obs"].append(menucheck.observe(run, state, names, p["info"], lenient=hand and not state.saved))
+            tr["obs"].append(menucheck.observe(run, state, names, p["info"], lenient=hand and not state.saved, aliases=al))
     except Exception as e:
         import traceback
 
@@ -250,7 +279,7 @@ def main(run):
     run.cov["programs"] = len(progs)
     run.cov["exhaustive"] = tier == "thorough"
     run.cov["rule"] = (
-        "per program 5 initial files (absent, two tool-written, hand-edited with an unknown name / a duplicate entry / a single line) x every "
+        "per program up to 7 initial files (absent, two tool-written, hand-edited with an unknown name / a duplicate entry / a single line / an entry spelled through a plain or an inverted deprecated name) x every "
         "transition of the TLC exploration of action sequences <= %d (set through the front end's guards, member picks, reset option / "
         "choice / menu, load of an alternate tool-written or hand-written file, save + reload); sessions containing save or load are kept "
         "first when capping; every session is distinct" % maxlen
